@@ -263,6 +263,7 @@ int sim_close(int fd) {
 	if (!k->open) { if (g_hooks) g_hooks->hygiene("double-close", "descriptor closed twice (kind " + std::to_string(k->kind) + ")"); errno = EBADF; return -1; }
 	g_hooks->on_close(*k);
 	k->open = false; k->ever_closed = true; k->in_epoll = false; k->ep_pending = false; k->armed = false;
+	if (g_kernel.close_eintr > 0 && (k->kind == FD_STREAM || k->kind == FD_TIMER)) { g_kernel.close_eintr--; if (g_hooks) g_hooks->on_file_op("close-eintr", fd); errno = EINTR; return -1; }   // interrupted by a signal: on Linux the descriptor is gone nevertheless
 	return 0;
 }
 
